@@ -23,6 +23,7 @@ import (
 
 type whoSpec struct {
 	fails  bool
+	failAs int // which error a failing lookup returns: 0 plain, 1 context.Canceled, 2 context.DeadlineExceeded (wrapped)
 	tags   []string
 	login  string
 	node   string
@@ -51,6 +52,12 @@ func capValue(kind string, rs acl.Rules) ([]tailcfg.RawMessage, bool) {
 
 func (w *whoSpec) answer() (*apitype.WhoIsResponse, error) {
 	if w.fails {
+		switch w.failAs {
+		case 1:
+			return nil, context.Canceled
+		case 2:
+			return nil, fmt.Errorf("whois: %w", context.DeadlineExceeded)
+		}
 		return nil, errors.New("whois failed")
 	}
 	cm := tailcfg.PeerCapMap{}
@@ -170,8 +177,9 @@ func traceHTTP(o opts) error {
 			}
 			ws := &base
 			switch r.Intn(40) {
-			case 0:
+			case 0, 8:
 				ws.fails = true
+				ws.failAs = r.Intn(3) // the lookup's own timeout or cancellation is a lookup error like any other
 			case 1:
 				ws.tags, ws.login = nil, "" // anonymous
 			case 2:
@@ -194,7 +202,7 @@ func traceHTTP(o opts) error {
 			}
 			ct := "application/json"
 			if r.Intn(14) == 0 {
-				ct = pick(r, []string{"application/json; charset=utf-8", "text/plain", "", "Application/JSON"})
+				ct = pick(r, []string{"application/json; charset=utf-8", "text/plain", "", "Application/JSON", "application/json-seq", "application/jsonlines", "application/json5", "application/json-patch+json", " application/json"})
 			}
 			nb := "setec"
 			if r.Intn(14) == 0 {
@@ -271,7 +279,19 @@ func traceHTTP(o opts) error {
 			cli := "-"
 			res := "-"
 			var creq []byte
+			// the first exchange of one in six client calls fails before it reaches the server (a
+			// gateway error): the client must report an error - not retry differently, not invent a value
+			cfault := via == "client" && r.Intn(6) == 0
+			exchanges := 0
+			diskBefore := ""
+			if cfault {
+				diskBefore, _ = readDisk(w.path, kek)
+			}
 			do := func(req *http.Request) (*http.Response, error) {
+				exchanges++
+				if cfault && exchanges == 1 {
+					return &http.Response{StatusCode: 502, Status: "502 Bad Gateway", Header: http.Header{}, Body: io.NopCloser(strings.NewReader("bad gateway\n")), Request: req}, nil
+				}
 				if via == "client" && req.Body != nil {
 					// what the real client put on the wire
 					creq, _ = io.ReadAll(req.Body)
@@ -328,6 +348,13 @@ func traceHTTP(o opts) error {
 					req.Header.Set("Sec-X-Tailscale-No-Browsers", nb)
 				}
 				do(req)
+			}
+			if cfault {
+				after, _ := readDisk(w.path, kek)
+				emit("clientfault\tep=%s\tkind=%s\tcli=%s\texchanges=%d\tchanged=%s", ep, op.kind, cli, exchanges, b01(diskBefore != after))
+				if exchanges == 1 {
+					continue // nothing reached the server
+				}
 			}
 			if status == 200 {
 				res = decodeResp(ep, rbody)
